@@ -430,14 +430,14 @@ void jv_g2a_xy(uint8_t* out, const void* inA) {
 void jv_g1a_set_xy(void* outA, const uint8_t* be, int infinity) {
     G1Affine& a = OA1(outA);
     memset(&a, 0, sizeof(a));
-    if (infinity) { a.copy(G1Affine::zero); return; }
-    fq_from_be(a.x, be); fq_from_be(a.y, be + 48); a.infinity = false;
+    if (infinity == 1) { a.copy(G1Affine::zero); return; }
+    fq_from_be(a.x, be); fq_from_be(a.y, be + 48); a.infinity = infinity == 2;   /* 2: the caller set the flag on an object that still holds coordinates */
 }
 void jv_g2a_set_xy(void* outA, const uint8_t* be, int infinity) {
     G2Affine& a = OA2(outA);
     memset(&a, 0, sizeof(a));
-    if (infinity) { a.copy(G2Affine::zero); return; }
-    fq_from_be(a.x.c1, be); fq_from_be(a.x.c0, be + 48); fq_from_be(a.y.c1, be + 96); fq_from_be(a.y.c0, be + 144); a.infinity = false;
+    if (infinity == 1) { a.copy(G2Affine::zero); return; }
+    fq_from_be(a.x.c1, be); fq_from_be(a.x.c0, be + 48); fq_from_be(a.y.c1, be + 96); fq_from_be(a.y.c0, be + 144); a.infinity = infinity == 2;
 }
 void jv_g1_clear_cofactor_ref(void* out, const void* inA) {
     G1 t; G1Affine b; b.copy(AA1(inA));
